@@ -41,6 +41,8 @@ pub struct Fault {
     pub kinds: u8,
     /// The k-th counted call (0-based, counted since `arm`) fails.
     pub k: u64,
+    /// The injected error; `WriteZero` on a write means the call returns `Ok(0)` instead
+    /// (a full store that accepts nothing).
     pub err: ErrorKind,
     /// Every counted call from k on fails.
     pub sticky: bool,
@@ -315,6 +317,11 @@ impl Write for MonFile {
         let mut limit = buf.len();
         if !buf.is_empty() {
             if let Some((err, now)) = g.check_fault(K_WRITE) {
+                if now && err == ErrorKind::WriteZero {
+                    // "the store is full": the writer accepts nothing, without an error
+                    g.record(K_WRITE, pos, req, Ok(0));
+                    return Ok(0);
+                }
                 if now {
                     g.record(K_WRITE, pos, req, Err(err));
                     return Err(io::Error::new(err, "injected write fault"));
